@@ -4,6 +4,7 @@ package fix
 import (
 	"errors"
 	"regexp"
+	"strconv"
 	"strings"
 	"sync"
 )
@@ -371,3 +372,66 @@ func NormMergedErrBad(s []int, i int, w func() error) int {
 // NormClone / NormCloneBad: clone idioms.
 func NormClone(b []byte) []byte    { return append(b[:0:0], b...) }
 func NormCloneBad(b []byte) []byte { return append(b[:0], b...) }
+
+// TripFull / TripShort / TripNested: constant trip counts of counted loops (round 7).
+func TripFull(m [4]uint32) (out []int) {
+	for n := 0; n < 128; n++ {
+		if m[n/32]&(1<<(n%32)) != 0 {
+			out = append(out, n)
+		}
+	}
+	return out
+}
+
+func TripShort(m [4]uint32) (out []int) {
+	for n := 0; n < 127; n++ {
+		if m[n/32]&(1<<(n%32)) != 0 {
+			out = append(out, n)
+		}
+	}
+	return out
+}
+
+func TripNested(m [4]uint32) (out []int) {
+	for w, bits := range m {
+		for b := 0; b < 32; b++ {
+			if bits&(1<<b) != 0 {
+				out = append(out, w*32+b)
+			}
+		}
+	}
+	return out
+}
+
+// NumLoopStops / NumLoopGoesOn: a loop counted by a number read from the input (round 6).
+func NumLoopStops(m map[string]string, argc string) int {
+	n, err := strconv.Atoi(argc)
+	if err != nil {
+		return -1
+	}
+	k := 0
+	for i := 0; i < n; i++ {
+		v, ok := m["a"+strconv.Itoa(i)]
+		if !ok {
+			return k
+		}
+		k += len(v)
+	}
+	return k
+}
+
+func NumLoopGoesOn(m map[string]string, argc string) int {
+	n, err := strconv.Atoi(argc)
+	if err != nil {
+		return -1
+	}
+	k := 0
+	for i := 0; i < n; i++ {
+		v, ok := m["a"+strconv.Itoa(i)]
+		if !ok {
+			continue
+		}
+		k += len(v)
+	}
+	return k
+}
